@@ -103,6 +103,26 @@ def run_case(case):
             if t.grad is not None:
                 viol.append({"monitor": "rejection", "mech": "gradient-written-by-rejected-backward", "msg": f"a rejected backward(grad) left a gradient on a tensor of shape {t.shape}"})
                 break
+        if not viol:
+            # the rejection is not the end of the graph: the plain L.backward() that follows gives what it gives without the rejected call
+            try:
+                with np.errstate(all="ignore"):
+                    it.exec(len(prog) + 1, {"k": "backward", "tgt": L, "seed": None})
+                after = mgrun.snapshot_grads(it.env)
+                REG.reset()
+                ref = Interp("mg")
+                with np.errstate(all="ignore"):
+                    ref.run(prog + [{"k": "backward", "tgt": L, "seed": None}], catch=False)
+                want = mgrun.snapshot_grads(ref.env)
+                cnt["retry_after_rejection"] = 1
+                for n, w in want.items():
+                    a = after.get(n)
+                    if (a is None) != (w is None) or (w is not None and not np.array_equal(a, w, equal_nan=True)):
+                        viol.append({"monitor": "rejection", "mech": "backward-after-rejected-seed-differs",
+                                     "msg": f"after a rejected backward(grad), L.backward() gives {n}.grad = {None if a is None else a.ravel()[:3]}; without the rejected call {None if w is None else w.ravel()[:3]}"})
+                        break
+            except Exception as e:
+                viol.append({"monitor": "rejection", "mech": f"backward-after-rejected-seed-raises:{type(e).__name__}", "msg": f"L.backward() after a rejected seed raised {type(e).__name__}: {e}"})
         return {"viol": viol, "counters": cnt, "sets": sets, "sig": mgrun.struct_sig(prog) + kind, "nontrivial": True}
     a_prog = prog + [{"k": "backward", "tgt": L, "seed": g}]
     if g is None:
